@@ -2,12 +2,14 @@
 
 mod child;
 mod exec;
+mod generate;
 mod oracle;
 mod plan;
 mod sha256;
 mod shims;
 mod sim;
 mod storage;
+mod tree;
 mod workload;
 
 use std::{io::Write, path::PathBuf};
@@ -35,7 +37,7 @@ fn emit(v: serde_json::Value) {
 }
 
 /// Judge a variation against its group's reference, for the property the check is about
-fn judge(property: &str, reference: &ExecRecord, rec: &ExecRecord) -> Vec<Violation> {
+fn judge(property: &str, plan: &Plan, reference: &ExecRecord, rec: &ExecRecord) -> Vec<Violation> {
     let mut v = Vec::new();
     if rec.outcome.class == "harness" {
         return v;
@@ -50,9 +52,78 @@ fn judge(property: &str, reference: &ExecRecord, rec: &ExecRecord) -> Vec<Violat
             // bytes that depend on nothing but the schedule are C01's business
             v.extend(oracle::c01(reference, rec));
         }
+        "C14" => {
+            v.extend(oracle::c14(reference, rec));
+        }
+        "C15" => {
+            v.extend(oracle::c15(plan, rec));
+        }
         _ => {}
     }
     v
+}
+
+fn has_byte_faults(plan: &Plan) -> bool {
+    plan.faults.iter().any(|f| f.kind.starts_with("src-"))
+}
+
+/// Run a plan in a forked child, preparing (and afterwards repairing) the private source tree
+/// when the plan carries stored-byte faults.
+fn run_plan(
+    plan: &Plan,
+    sandbox: &std::path::Path,
+    full: bool,
+    verbose: bool,
+    judge_fn: &dyn Fn(&ExecRecord) -> Vec<Violation>,
+) -> (child::ChildResult, Vec<String>, Vec<String>) {
+    // generated sources are written into the sandbox they are compiled from
+    if let Some(profile) = plan.source.strip_prefix("gen:") {
+        let dir = sandbox.join("gen");
+        if !dir.exists() {
+            generate::materialize(plan.gen_seed.unwrap_or(0), profile, &dir);
+        }
+    }
+    // what an earlier invocation left in the build directory
+    let mut prepared = Vec::new();
+    let prep = match &plan.history {
+        plan::History::Clean => None,
+        plan::History::SameSource => {
+            let mut p = plan.clone();
+            p.history = plan::History::Clean;
+            p.evict.clear();
+            p.readback = false;
+            p.faults.clear();
+            p.strategy = plan::Strategy::seq();
+            p.workers = 1;
+            Some(p)
+        }
+        plan::History::OtherSource(src) => {
+            let mut p = Plan::reference(&plan.property, src, plan.options.clone());
+            p.options.emit_ir = true;
+            Some(p)
+        }
+        plan::History::Crashed(at) => {
+            let mut p = plan.clone();
+            p.history = plan::History::Clean;
+            p.evict.clear();
+            p.readback = false;
+            p.crash_at = Some(*at);
+            Some(p)
+        }
+    };
+    if let Some(p) = prep {
+        let r = child::run_forked(&p, sandbox, false, false, &|_| vec![]);
+        prepared.push(format!("history {:?}: previous run ended {}", plan.history, r.rec.outcome.class));
+    }
+    if !has_byte_faults(plan) {
+        return (child::run_forked(plan, sandbox, full, verbose, judge_fn), vec![], prepared);
+    }
+    let root = exec::TREE_ROOT.get_or_init(|| scratch_root().join(format!("tree-{}", std::process::id()))).clone();
+    let mut tree = tree::Tree::ensure(&root);
+    let applied = tree.apply(plan);
+    let res = child::run_forked(plan, sandbox, full, verbose, judge_fn);
+    tree.restore();
+    (res, applied, prepared)
 }
 
 fn run_line(group: &workload::Group, plan: &Plan, is_ref: bool, rec: &ExecRecord, violations: &[Violation]) -> serde_json::Value {
@@ -93,7 +164,7 @@ fn cmd_check(args: &[String]) {
     let shards: usize = arg_value(args, "--shards").and_then(|s| s.parse().ok()).unwrap_or(1);
     let budget_s: f64 = arg_value(args, "--budget").and_then(|s| s.parse().ok()).unwrap_or(f64::MAX);
     let only: Option<String> = arg_value(args, "--only");
-    let max_viol: usize = arg_value(args, "--max-violations").and_then(|s| s.parse().ok()).unwrap_or(8);
+    let max_viol: usize = arg_value(args, "--max-violations").and_then(|s| s.parse().ok()).unwrap_or(60);
     exec::install_panic_hook();
     sim::install_hooks();
     let sandbox = scratch_root().join(format!("shard-{}-{}", shard, std::process::id()));
@@ -103,6 +174,7 @@ fn cmd_check(args: &[String]) {
     let t0 = real_now();
     let mut skipped = 0usize;
     let mut reported = 0usize;
+    let mut seen_sigs: std::collections::HashMap<String, usize> = std::collections::HashMap::new();
     for g in groups {
         if g.index % shards != shard {
             continue;
@@ -118,7 +190,7 @@ fn cmd_check(args: &[String]) {
         }
         let _ = std::fs::remove_dir_all(&sandbox);
         let t_run = real_now();
-        let ref_res = child::run_forked(&g.reference, &sandbox, true, false, &|_| vec![]);
+        let (ref_res, _, _) = run_plan(&g.reference, &sandbox, true, false, &|_| vec![]);
         let mut line = run_line(&g, &g.reference, true, &ref_res.rec, &[]);
         line["wall_ms"] = json!(((real_now() - t_run) * 1000.0) as u64);
         emit(line);
@@ -135,7 +207,23 @@ fn cmd_check(args: &[String]) {
             let _ = std::fs::remove_dir_all(&sandbox);
             let prop = property.clone();
             let t_run = real_now();
-            let res = child::run_forked(&v, &sandbox, false, false, &|rec| judge(&prop, &reference, rec));
+            let (mut res, applied, prepared) = run_plan(&v, &sandbox, false, false, &|rec| judge(&prop, &v, &reference, rec));
+            for h in &prepared {
+                let kind = match &v.history {
+                    plan::History::Clean => "history-clean",
+                    plan::History::SameSource => "history-same-source",
+                    plan::History::OtherSource(_) => "history-other-source",
+                    plan::History::Crashed(_) if h.ends_with("crashed") => "history-crashed",
+                    plan::History::Crashed(_) => "history-crashed(finished-before-crash-point)",
+                };
+                *res.rec.faults_fired.entry(kind.to_string()).or_default() += 1;
+            }
+            if !v.evict.is_empty() {
+                *res.rec.faults_fired.entry("eviction-set".to_string()).or_default() += 1;
+            }
+            for f in v.faults.iter().filter(|f| f.kind.starts_with("src-")) {
+                *res.rec.faults_fired.entry(format!("{}{}", f.kind, if applied.is_empty() { "(not-applicable)" } else { "" })).or_default() += 1;
+            }
             let mut line = run_line(&g, &v, false, &res.rec, &res.violations);
             line["wall_ms"] = json!(((real_now() - t_run) * 1000.0) as u64);
             emit(line);
@@ -143,7 +231,11 @@ fn cmd_check(args: &[String]) {
                 emit(json!({"t": "harness", "group": g.index, "plan": v, "detail": res.rec.outcome.detail}));
             }
             for viol in &res.violations {
-                if reported < max_viol {
+                // a few examples per kind of violation, so that one frequent kind cannot crowd out the rest
+                let sig: String = format!("{}|{}|{}", viol.property, viol.class, viol.detail.chars().filter(|c| !c.is_ascii_digit()).take(48).collect::<String>());
+                let n = seen_sigs.entry(sig).or_insert(0usize);
+                *n += 1;
+                if *n <= 3 && reported < max_viol {
                     reported += 1;
                     emit(json!({
                         "t": "violation",
@@ -152,13 +244,16 @@ fn cmd_check(args: &[String]) {
                         "detail": viol.detail,
                         "reference": g.reference,
                         "plan": v,
-                        "observed": {"outcome": res.rec.outcome, "panics": res.rec.panics, "steps": res.rec.steps},
+                        "observed": {"outcome": res.rec.outcome, "panics": res.rec.panics, "steps": res.rec.steps, "faults_applied": applied, "history": prepared, "fault_log": res.rec.fault_log},
                     }));
                 }
             }
         }
     }
     let _ = std::fs::remove_dir_all(&sandbox);
+    if let Some(root) = exec::TREE_ROOT.get() {
+        let _ = std::fs::remove_dir_all(root);
+    }
     emit(json!({"t": "done", "shard": shard, "groups_total": total, "skipped_for_budget": skipped}));
 }
 
@@ -183,12 +278,21 @@ fn cmd_replay(args: &[String]) {
     sim::install_hooks();
     let sandbox = scratch_root().join(format!("replay-{}", std::process::id()));
     let _ = std::fs::remove_dir_all(&sandbox);
-    let ref_res = child::run_forked(&reference, &sandbox, true, false, &|_| vec![]);
+    let (ref_res, _, _) = run_plan(&reference, &sandbox, true, false, &|_| vec![]);
     let _ = std::fs::remove_dir_all(&sandbox);
     let reference_rec = ref_res.rec;
     let check_prop = plan.property.clone();
-    let res = child::run_forked(&plan, &sandbox, true, verbose, &|rec| judge(&check_prop, &reference_rec, rec));
+    let (res, applied, prepared) = run_plan(&plan, &sandbox, true, verbose, &|rec| judge(&check_prop, &plan, &reference_rec, rec));
+    for h in &prepared {
+        eprintln!("{h}");
+    }
     let _ = std::fs::remove_dir_all(&sandbox);
+    if let Some(root) = exec::TREE_ROOT.get() {
+        let _ = std::fs::remove_dir_all(root);
+    }
+    for a in &applied {
+        eprintln!("fault applied: {a}");
+    }
     if verbose {
         if let Some(log) = &res.rec.log {
             for l in log {
@@ -228,6 +332,9 @@ fn main() {
             let _ = std::fs::remove_dir_all(&sandbox);
             exec::install_panic_hook();
             sim::install_hooks();
+            if let Some(profile) = plan.source.strip_prefix("gen:") {
+                generate::materialize(plan.gen_seed.unwrap_or(0), profile, &sandbox.join("gen"));
+            }
             let rec = exec::execute(&plan, &sandbox, verbose);
             if let Some(keep) = arg_value(&args, "--keep-font") {
                 if let Some(font) = &rec.font {
@@ -274,6 +381,13 @@ fn main() {
         }
         "check" => cmd_check(&args),
         "replay" => cmd_replay(&args),
+        "gen" => {
+            let seed: u64 = args[2].parse().expect("seed");
+            let profile = args[3].clone();
+            let dir = PathBuf::from(&args[4]);
+            let ds = generate::materialize(seed, &profile, &dir);
+            println!("{}", dir.join(ds).display());
+        }
         "corpus" => {
             for c in workload::corpus() {
                 println!("{c}");
